@@ -368,6 +368,9 @@ func udpEngine(rng *Rng, n int, out *Out, args map[string]string) {
 		addSink(e.linkLocal6, 9000)
 		addSink(e.linkLocal6, 53)
 	}
+	if e.linkLocal6Long != "" {
+		addSink(e.linkLocal6Long, 9000)
+	}
 	out.Note("udp engine: netns=%v sinks=%d", e.netns, len(sinks))
 	life := args["life"] == "1"
 	for c := 0; c < n; c++ {
